@@ -138,10 +138,12 @@ pub fn relate_case(cx: &mut Ctx, n: u64, case: &Value) {
     }
     if cx.wants("C01") || cx.wants("C13") {
         let prop = if cx.wants("C01") { "C01" } else { "C13" };
+        // C13 (commutation): the mapped answer must equal the implementation's own unmapped answer
+        let base = if prop == "C13" { relate_cc(&a, &b).unwrap_or_else(|p| format!("PANIC: {p}")) } else { im.clone() };
         for &k in &pick {
             let m = &maps[k];
             let (ta, tb) = (m.on(&a), m.on(&b));
-            chk(cx, prop, "relate_exact_map", case, format!("map {}", m.name), relate_cc(&ta, &tb), &im);
+            chk(cx, prop, "relate_exact_map", case, format!("map {}", m.name), relate_cc(&ta, &tb), &base);
         }
     }
     if cx.wants("C17") {
@@ -207,11 +209,12 @@ pub fn relate_case(cx: &mut Ctx, n: u64, case: &Value) {
             }
         }
         let prop = if cx.wants("C02") { "C02" } else { "C13" };
+        let (bix, bct) = if prop == "C13" { (intersects_cc(&a, &b).unwrap_or(ix), contains_cc(&a, &b).unwrap_or(ct)) } else { (ix, ct) };
         for &k in &pick {
             let m = &maps[k];
             let (ta, tb) = (m.on(&a), m.on(&b));
-            chkb(cx, prop, "intersects_exact_map", case, format!("map {}", m.name), intersects_cc(&ta, &tb), ix);
-            chkb(cx, prop, "contains_exact_map", case, format!("map {}", m.name), contains_cc(&ta, &tb), ct);
+            chkb(cx, prop, "intersects_exact_map", case, format!("map {}", m.name), intersects_cc(&ta, &tb), bix);
+            chkb(cx, prop, "contains_exact_map", case, format!("map {}", m.name), contains_cc(&ta, &tb), bct);
         }
     }
 }
@@ -264,7 +267,12 @@ fn coordpos_point(cx: &mut Ctx, n: u64, g: &G, gjson: &Value, x: i64, y: i64, wa
     let c = Coord { x: x as f64, y: y as f64 };
     let sub_case = json!({"op":"coordpos_pt","g":gjson,"c":[x,y],"pos":want});
     let got = guard(|| with_g!(g, z => pos_char(z.coordinate_position(&c))));
-    chk(cx, prop, "coordinate_position", &sub_case, "g.coordinate_position(c)".into(), got.map(|s| s.to_string()), want);
+    // C13 (commutation): the mapped answer must equal the implementation's own unmapped answer
+    let base13 = got.clone().unwrap_or("PANIC").to_string();
+    let want = if prop == "C13" { base13.as_str() } else { want };
+    if prop == "C02" {
+        chk(cx, prop, "coordinate_position", &sub_case, "g.coordinate_position(c)".into(), got.map(|s| s.to_string()), want);
+    }
     if prop == "C02" {
         let got = guard(|| pos_char(gg.coordinate_position(&c)));
         chk(cx, prop, "coordinate_position_geometry_enum", &sub_case, "Geometry(g).coordinate_position(c)".into(), got.map(|s| s.to_string()), want);
